@@ -52,7 +52,7 @@ def vectors(ctx):
                         if (x + fill + stv) % 9 == 0:
                             # reply from a boundary address: the AP field equals the plain parity (000000) / its complement
                             f = gen.with_parity(f[:11], rng.choice([0, 0xFFFFFF]))
-                        V.append({"fn": "commb." + name, "frame": f, "case": [name, x, stv, sgv, fill]})
+                        V.append({"fn": "commb." + name, "frame": gen.selfsim_tail(rng, f, 0.05), "case": [name, x, stv, sgv, fill]})
     # cap17: every single capability bit, pairs, random
     for k in range(24):
         f = gen.rand_frame_df(rng, 20)
